@@ -43,6 +43,9 @@ pub struct Ctx {
     pub by_kind: std::collections::BTreeMap<String, u64>,
     pub accepted: u64,
     pub rejected: u64,
+    /// implementation-level injectivity: structure bytes -> the (context, slots, aad, payload) key that produced them
+    pub inj: std::collections::HashMap<Vec<u8>, String>,
+    pub inj_checked: u64,
 }
 
 pub fn hash_pub(j: &J) -> u64 {
@@ -82,6 +85,8 @@ impl Ctx {
             by_kind: Default::default(),
             accepted: 0,
             rejected: 0,
+            inj: Default::default(),
+            inj_checked: 0,
         }
     }
 
@@ -143,6 +148,7 @@ impl Ctx {
             "harness_errors": self.harness_errors, "harness_error_samples": self.harness_error_samples,
             "distinct": self.distinct.len(), "distinct_nontrivial": self.nontrivial.len(),
             "samples": self.samples, "by_kind": self.by_kind, "accepted": self.accepted, "rejected": self.rejected,
+            "extra": {"injectivity_outputs": self.inj.len(), "injectivity_checked": self.inj_checked},
         })
     }
 }
@@ -685,6 +691,24 @@ pub fn run_session(ctx: &mut Ctx, v: &J) {
         if !same(&ex["ret"], &o["ret"]) && e["ev"] != "clone_eq" {
             ctx.mismatch(&sp, v, "returned-result-differs", json!({"step": i, "event": e, "want": ex["ret"], "got": o["ret"]}));
             return;
+        }
+        // distinct (context, protected slots, aad, payload) never share structure bytes
+        if let Some(key) = ex["inj"].get(0) {
+            let sb = o["bytes"].get(0).or_else(|| o["cb"].as_array().and_then(|a| a.last()));
+            if let Some(Ok(sb)) = sb.map(bytes_of) {
+                ctx.inj_checked += 1;
+                let k = key.to_string();
+                match ctx.inj.get(&sb) {
+                    Some(prev) if *prev != k => {
+                        ctx.mismatch(&sp, v, "distinct-inputs-share-structure-bytes", json!({"step": i, "bytes": hex(&sb), "other": prev}));
+                        return;
+                    }
+                    Some(_) => {}
+                    None => {
+                        ctx.inj.insert(sb, k);
+                    }
+                }
+            }
         }
         if !ex["noval"].as_bool().unwrap_or(false) {
             let ok = if slotfree { same(&wild_orig(&ex["val"]), &wild_orig(&o["val"])) } else { same(&ex["val"], &o["val"]) };
